@@ -13,6 +13,7 @@ import tempfile
 import threading
 
 import numpy as np
+import pandas as pd
 
 from . import common, geo, packfs
 from .common import Check
@@ -86,6 +87,57 @@ def concurrent_clients(chk, r, nthreads):
                                                                                                  threads=nthreads, clients=bad[:5])); return
             chk.nontriv(hash(("clients", kind, nthreads, rep_no)))
         chk.count(f"concurrent-clients:{kind}:{nthreads}")
+
+
+def concurrent_sjoin(chk, r, nthreads):
+    """N client threads run sjoin on the same two frames at once (a very short interpreter switch interval makes the threads really
+    interleave): every result equals the single-threaded one and the shared frames are left exactly as they were"""
+    import sys
+    from spatialpandas import GeoDataFrame, sjoin
+    n = 60
+    pts = [[r.randint(0, 40), r.randint(0, 40)] for _ in range(n)]
+    left = GeoDataFrame({"a": list(range(n)), "geometry": geo.make_array("point", pts, "float64")},
+                        index=pd.Index([f"L{i}" for i in range(n)], name="lid"))
+    right = GeoDataFrame({"rv": [0, 1, 2], "geometry": geo.make_array("polygon", [[[0, 0, 21, 0, 21, 21, 0, 21, 0, 0]], [[15, 15, 41, 15, 41, 41, 15, 41, 15, 15]],
+                                                                                  [[50, 50, 60, 50, 60, 60, 50, 60, 50, 50]]], "float64")},
+                         index=pd.Index(["r0", "r1", "r2"], name="rid"))
+    hows = ("inner", "left", "right")
+
+    def canon(df):
+        d = df.reset_index()
+        return (str(df.index.name), sorted(map(str, d.columns)), sorted(json.dumps([str(v) for v in row]) for row in d.astype(object).values.tolist()))
+    ref = {h: canon(sjoin(left, right, how=h)) for h in hows}
+    state0 = (left.index.name, right.index.name, list(left.columns), list(right.columns))
+    old = sys.getswitchinterval()
+    sys.setswitchinterval(1e-6)
+    try:
+        for round_no in range(2):
+            got, errs = {}, []
+            barrier = threading.Barrier(nthreads)
+
+            def worker(i):
+                try:
+                    barrier.wait()
+                    for h in hows:
+                        got[(i, h)] = canon(sjoin(left, right, how=h))
+                except Exception as e:  # noqa: BLE001
+                    errs.append(repr(e)[:200])
+            ts = [threading.Thread(target=worker, args=(i,)) for i in range(nthreads)]
+            [t.start() for t in ts]; [t.join() for t in ts]
+            chk.evaluated(nthreads * len(hows))
+            if errs:
+                chk.violation("concurrent/sjoin/client-raises", dict(api="sjoin on shared frames", threads=nthreads, errors=errs[:3])); return
+            bad = [k for k, v in got.items() if v != ref[k[1]]]
+            if bad:
+                chk.violation("concurrent/sjoin/client-result-differs-from-single-threaded", dict(api="sjoin on shared frames", threads=nthreads, clients=[list(b) for b in bad[:5]],
+                                                                                                  got_index_name=got[bad[0]][0], expected_index_name=ref[bad[0][1]][0])); return
+            state = (left.index.name, right.index.name, list(left.columns), list(right.columns))
+            if state != state0:
+                chk.violation("concurrent/sjoin/shared-frame-modified", dict(api="sjoin on shared frames", threads=nthreads, before=list(map(str, state0)), after=list(map(str, state)))); return
+            chk.nontriv(hash(("sjoin-clients", nthreads, round_no)))
+    finally:
+        sys.setswitchinterval(old)
+    chk.count(f"concurrent-sjoin:{nthreads}")
 
 
 def dask_ops(chk, r, schedulers):
@@ -209,6 +261,8 @@ def run_cases(chk, tier):
         # (ii) shared objects
         for nthreads in ((2, 8) if tier == "quick" else (2, 8, 16)):
             concurrent_clients(chk, r, nthreads)
+        for nthreads in ((6,) if tier == "quick" else (2, 6, 12)):
+            concurrent_sjoin(chk, r, nthreads)
         # (iii) Dask schedulers
         scheds = [("threads", 2), ("threads", 8)] if tier == "quick" else [("threads", 1), ("threads", 2), ("threads", 4), ("threads", 16), ("synchronous", 1)]
         dask_ops(chk, r, scheds)
